@@ -619,6 +619,16 @@ def fold_body(folder, fn, env, self_attrs=True):
                 return ("raise", None)
             if isinstance(s, ast.Expr):
                 continue        # a call for effect (warnings.warn ...)
+            if isinstance(s, ast.Assert):
+                # a failing assertion ends the execution like a raise
+                try:
+                    if not ev(s.test):
+                        return ("raise", None)
+                except FoldError:
+                    pass
+                continue
+            if isinstance(s, ast.Pass):
+                continue
             raise FoldError("fold_body: %s" % type(s).__name__)
         return None
     out = run(fn.body)
